@@ -129,4 +129,35 @@ def parseRaw (_cfg : Cfg Tok) (s : String) : Option (SOp Tok) :=
     pure (.decoded (← c.toNat?) (decodeRaw f))
   | _ => none
 
+-- ---------------------------------------------------------------------------------------------
+-- the timed dimension: the actor's write timeout
+
+/-- `Config::write_timeout` of `Config::new` (`SERVER_WRITE_TIMEOUT`), in ms. -/
+def defaultWriteTimeoutMs : Nat := Generated.C05.writeTimeoutMs
+
+/-- Timed operations.  `Actor::write_frame` is `timeout(write_timeout, stream.send(frame))`:
+a PER-FRAME budget.  `writePacket c delay` / `writeMsg c delay`: the actor of `c` pops its
+packet / message queue and hands the frame to its stream; the client accepts it `delay` ms
+later.  The write completes iff `delay ≤ T`; otherwise the timer fires first, the actor
+fails (`RunError::PacketSend` / `WriteFrame` with `Timeout`) and leaves its loop. -/
+inductive TOp (α : Type) where
+  | base (op : Op α)
+  | writePacket (c : Cid) (delay : Nat)
+  | writeMsg (c : Cid) (delay : Nat)
+
+variable {α : Type}
+
+def tstep (cfg : Cfg α) (T : Nat) (s : State α) : TOp α → State α
+  | .base op => step cfg s op
+  | .writePacket c delay =>
+    if delay ≤ T then deliverPacket cfg s c else actorExit (deliverPacket cfg s c) c
+  | .writeMsg c delay =>
+    if delay ≤ T then deliverMsg s c else actorExit (deliverMsg s c) c
+
+/-- State after a timed history. -/
+def trunFrom (cfg : Cfg α) (T : Nat) (s : State α) (tops : List (TOp α)) : State α :=
+  tops.foldl (tstep cfg T) s
+
+def trun (cfg : Cfg α) (T : Nat) (tops : List (TOp α)) : State α := trunFrom cfg T RelayRegistry.init tops
+
 end IrohModel.C05
